@@ -10,6 +10,49 @@ from .common import CLIFF, CTAB, TABLEAU_ACCESSORS
 INLINE = set(TABLEAU_ACCESSORS) | {f"{CTAB}:CliffordTableau.__init__", f"{CTAB}:CliffordTableau._initialize_phase"}
 
 
+def _basis_holds(vals):
+    t, q = vals["T"], vals["q"]
+    n = t["n"]
+    if not (0 <= q < n):
+        return True
+    tab = t["table"]
+    return bool(tab[n:, q].any() or tab[:n, q].any())
+
+
+def shrink_grow_tasks(C, tier="quick"):
+    """remove_qubit (all n, all q, three modes), tensor (lists of 2 and 3 tableaux of any sizes), partial_trace (n = 2: every keep
+    set; n = 3: keep sets with one removal; thorough: also n = 3 with two removals) - callers are checked against remove_qubit's
+    contract, not its body"""
+    import itertools
+
+    from . import stab_remove as R
+    from pyvc.symlist import comprehension_hook
+
+    C.update(R.C)
+    T = []
+    Bt = z3.Function("T_tab", z3.IntSort(), z3.IntSort(), z3.BoolSort())
+    n, q = z3.Int("n_T"), z3.Int("q")
+    s, d = z3.Ints("tb_s tb_d")
+    basis = z3.Implies(z3.ForAll([s], z3.Implies(z3.And(s >= n, s < 2 * n), z3.Not(Bt(s, q)))),
+                       z3.Exists([d], z3.And(d >= 0, d < n, Bt(d, q))))
+    hooks = {"loop": loops.make_hook(R.REMOVE_LOOPS), "comprehension": comprehension_hook}
+    for mode in ("probabilistic", 0, 1):
+        T.append(Task(R.REMOVE, C[R.REMOVE], [S.Clifford("T"), S.IntArg("q"), S.Const("mode", mode), S.Assume(basis, "T-basis", check=_basis_holds)],
+                      C, inline=INLINE, hooks=hooks, label=f"remove_qubit[{mode}]", timeout_ms=20000))
+    T.append(Task(R.TENSOR, C[R.TENSOR], [S.ListOf("tables", [S.Clifford("A"), S.Clifford("B")])], C, inline=INLINE,
+                  label="tensor[2 tableaux]", timeout_ms=20000))
+    T.append(Task(R.TENSOR, C[R.TENSOR], [S.ListOf("tables", [S.Clifford("A"), S.Clifford("B"), S.Clifford("D")])], C,
+                  inline=INLINE, label="tensor[3 tableaux]", timeout_ms=20000))
+    cases = [(2, k) for r in range(3) for k in itertools.combinations(range(2), r)]
+    cases += [(3, k) for r in ((1, 2, 3) if tier == "thorough" else (2, 3)) for k in itertools.combinations(range(3), r)]
+    for nq, keep in cases:
+        for mode in ("probabilistic", 1):
+            T.append(Task(R.PTRACE, C[R.PTRACE], [S.Clifford("T", nq), S.Const("keep", list(keep)), S.Const("dims", None),
+                                                  S.Const("mode", mode)], C, inline=INLINE,
+                          label=f"partial_trace[n={nq},keep={list(keep)},{mode}]", timeout_ms=20000))
+    return T
+
+
 def tasks(C):
     T = []
     q = f"{CLIFF}:swap_gate"
